@@ -267,6 +267,10 @@ def lean_files():
              "   does to its arrays. -/\n"
              "import MenpoModel.Generated.C05Dispatch\nimport MenpoModel.Generated.C05Effects\n\n"
              "namespace MenpoModel.C05.GenProps\nopen MenpoModel.C05\n\n"
+             "/-- measured row `e` is within what the model's row `m` allows -/\n"
+             "def effSound (e m : EffRow) : Bool :=\n"
+             "  e.cls == m.cls && e.fviWrites.all (fun b => m.fviWrites.contains b) &&\n"
+             "  m.fresh.all (fun b => e.fresh.contains b) && e.fvWrites.isEmpty\n\n"
              "/-- every concrete Vectorizable class resolves the seven methods exactly as the model assumes -/\n"
              "theorem dispatch_ok : Generated.dispatch = expectedDispatch := by decide\n\n"
              "/-- no Vectorizable class has appeared or disappeared -/\n"
@@ -274,16 +278,28 @@ def lean_files():
              "/-- for every class, `from_vector` is either a constructor rebuild or `copy()` + an in-place update that\n"
              "writes only into buffers the resolved `copy` makes fresh (receiver purity, see Props/C05.lean) -/\n"
              "theorem dispatch_pure : ∀ r ∈ Generated.dispatch, rowPure r = true := by decide\n\n"
-             "/-- what the live objects do to their arrays (copy freshness, in-place writes, rebindings, sharing between\n"
-             "receiver and result) is what the model's per-supplier tables predict through the method-resolution table -/\n"
-             "theorem effects_ok : Generated.effects = expectedEffects := by decide\n\n"
+             "/-- what the live objects do to their arrays stays WITHIN what the model allows (one direction only: the\n"
+             "property does not say which arrays are shared or rebound, so a safer copy or a rebinding supplier must not\n"
+             "raise an alarm): every array a live `_from_vector_inplace` wrote in place is one the model's supplier may\n"
+             "write, every array the model takes to be fresh in `copy()` is fresh in the live copy, no `from_vector`\n"
+             "wrote to its receiver.  (The exact equality `Generated.effects = expectedEffects` is kept as an informational\n"
+             "drift report in GenProps/C05Drift.lean.) -/\n"
+             "theorem effects_sound : Generated.effects.length = expectedEffects.length ∧\n"
+             "    (List.zipWith effSound Generated.effects expectedEffects).all id = true := by decide\n\n"
              "/-- measured directly: no `from_vector` changed an array of its receiver, and every array a live\n"
              "`_from_vector_inplace` wrote in place is fresh in the live `copy()` of that class -/\n"
              "theorem effects_pure : ∀ e ∈ Generated.effects,\n"
              "    e.fvWrites = [] ∧ e.fviWrites.all (fun b => e.fresh.contains b) = true := by decide\n\n"
              "end MenpoModel.C05.GenProps\n")
+    drift = ("/- INFORMATIONAL (not an obligation of the check): the measured effects table is exactly the one the model's\n"
+             "   per-supplier tables predict.  When this file stops building while GenProps/C05.lean still builds, the code\n"
+             "   shares / rebinds / writes its arrays differently from the model but still within what the heap theorems\n"
+             "   need (effects_sound, effects_pure): reported in the evidence as `effects_table_drift`, no alarm. -/\n"
+             "import MenpoModel.Generated.C05Effects\n\nnamespace MenpoModel.C05.GenProps\nopen MenpoModel.C05\n\n"
+             "theorem effects_ok : Generated.effects = expectedEffects := by decide\n\n"
+             "end MenpoModel.C05.GenProps\n")
     return {"MenpoModel/Generated/C05Dispatch.lean": gen, "MenpoModel/Generated/C05Effects.lean": effects_lean(),
-            "MenpoModel/GenProps/C05.lean": props}
+            "MenpoModel/GenProps/C05.lean": props, "MenpoModel/GenProps/C05Drift.lean": drift}
 
 
 TARGETS = ["MenpoModel.Generated.C05Dispatch", "MenpoModel.Generated.C05Effects", "MenpoModel.GenProps.C05"]
